@@ -86,6 +86,8 @@ type Ctx struct {
 	gwCache map[*ssa.Global]bool
 	bce     map[string]bool
 	powerCache *powerSrc
+	expandDepth int
+	writesParserMemo map[*ssa.Function]bool
 	tableDone  bool
 	bceErr  error
 	subst   map[*ssa.Parameter]ssa.Value
